@@ -146,9 +146,11 @@ def setup(conf: str | None = None) -> None:
         names = list(spil_conf().path_configs)
         if os.environ.get("VF_FIRST"):           # which path configuration is loaded first (C05/C13 variants)
             names.sort(key=lambda n: n != os.environ["VF_FIRST"])
-        for name in names:  # pre-warm configuration level caches (E4)
-            get_path_config(name)
-        get_path_config(None)
+        for name in list(names) + [None]:  # pre-warm configuration level caches (E4)
+            try:
+                get_path_config(name)
+            except Exception:      # a library failure here must surface inside an obligation, not as a harness crash
+                pass
         if not CACHES:
             decache()
     from spil.util import log as _log
